@@ -84,6 +84,8 @@ def run(ctx: Ctx):
     import fsize
     for _ in range(ctx.n(1, 8)):
         fsize.take_case(ctx, fsize.rand_take_cfg(ctx.rng))
+    for _ in range(ctx.n(2, 10)):
+        fsize.take_case(ctx, fsize.rand_fault_cfg(ctx.rng), "real_plugin_fault")
     detsim.install()
     for case in CORPUS:
         _account(ctx, case, cl.run_case(ctx, case, "corpus"), "corpus")
